@@ -126,6 +126,16 @@ func (e *emptyMsgErr) FromJSONRPCError(j jsonrpc.JSONRPCError) error {
 	return nil
 }
 
+// registered in VALUE form; as is natural for such a type the reading half of the codec has a pointer receiver (it has to
+// fill the value in), the rest have value receivers: only the pointer type is a full RPCErrorCodec
+type valCodec struct{ M string }
+
+func (e valCodec) Error() string { return e.M }
+func (e valCodec) ToJSONRPCError() (jsonrpc.JSONRPCError, error) {
+	return jsonrpc.JSONRPCError{Code: 48, Message: e.M}, nil
+}
+func (e *valCodec) FromJSONRPCError(j jsonrpc.JSONRPCError) error { e.M = j.Message; return nil }
+
 type valReg struct{ M string } // registered as a value type; handlers may return the value or a pointer
 
 func (e valReg) Error() string { return e.M }
@@ -164,6 +174,8 @@ func mkErr(kind int, msg string, n int) error {
 		return &dataErr{M: msg, D: fmt.Sprintf("payload-%d", n)}
 	case 14:
 		return &emptyMsgErr{T: msg, D: fmt.Sprintf("d-%d", n)}
+	case 15:
+		return valCodec{M: msg}
 	}
 	return nil
 }
@@ -203,6 +215,8 @@ func regType(kind int) interface{} {
 		return new(*dataErr)
 	case 14:
 		return new(*emptyMsgErr)
+	case 15:
+		return new(valCodec)
 	}
 	return nil
 }
@@ -235,7 +249,7 @@ type errCase struct {
 }
 
 func errorsFamily(seed uint64, tier string, args []string) {
-	same := [][2]int{{11, 1}, {12, 2}, {13, 3}, {14, 4}, {15, 5}, {16, 6}, {17, 7}, {20, 10}, {46, 13}, {47, 14}}
+	same := [][2]int{{11, 1}, {12, 2}, {13, 3}, {14, 4}, {15, 5}, {16, 6}, {17, 7}, {20, 10}, {46, 13}, {47, 14}, {48, 15}}
 	disjoint := [][2]int{{21, 1}, {22, 2}, {23, 3}, {24, 4}, {25, 5}, {26, 6}, {27, 7}, {30, 10}}
 	swapped := [][2]int{{11, 2}, {12, 1}, {13, 4}, {14, 3}, {15, 5}, {16, 6}, {17, 7}, {20, 10}, {40, 3}, {41, 4}, {42, 1}, {44, 3}, {45, 5}}
 	codecCodes := [][2]int{{40, 4}, {41, 4}, {42, 4}, {44, 7}, {45, 5}, {13, 3}, {11, 1}, {46, 13}, {47, 14}}
@@ -270,7 +284,7 @@ func errorsFamily(seed uint64, tier string, args []string) {
 			if err != nil {
 				panic(err)
 			}
-			for kind := 0; kind <= 14; kind++ {
+			for kind := 0; kind <= 15; kind++ {
 				for mi, msg := range msgs {
 					if tier == "quick" && (kind+mi+ri)%3 != 0 && mi > 1 {
 						continue
@@ -297,6 +311,9 @@ func errorsFamily(seed uint64, tier string, args []string) {
 								c.Fields = string(b)
 							case *dataErr:
 								b, _ := json.Marshal(map[string]interface{}{"code": 46, "message": v.M, "data": v.D})
+								c.Fields = string(b)
+							case valCodec:
+								b, _ := json.Marshal(map[string]interface{}{"code": 48, "message": v.M, "data": nil})
 								c.Fields = string(b)
 							case *emptyMsgErr:
 								b, _ := json.Marshal(map[string]interface{}{"code": 47, "message": v.M, "data": v.D})
@@ -335,6 +352,8 @@ func errorsFamily(seed uint64, tier string, args []string) {
 							c.Oracle = fmt.Sprintf("a codec-style error supplying code %d itself arrived as the generic error without that code: %s", codecCode(kind, n), c.Fields)
 						case codecCode(kind, n) != 0 && e != nil && hasReg(rel.c, codecCode(kind, n), kind) && kind != 7 && c.Type == "*jsonrpc.JSONRPCError":
 							c.Oracle = fmt.Sprintf("a codec-style error supplying code %d itself, registered under that code by the client (server table: %v), arrived as the generic error: %s", codecCode(kind, n), rel.s, c.Fields)
+						case kind == 15 && rel.name == "same" && (c.Type != "main.valCodec" || !strings.Contains(c.Fields, `"message":`+mustQ(msg))):
+							c.Oracle = "an error type registered in value form under the same code on both sides, whose pointer type is a codec, did not arrive as that type with its fields: " + c.Type + " " + c.Fields
 						case kind == 14 && e != nil && c.Type == "*main.emptyMsgErr" && !strings.Contains(c.Fields, `"message":""`):
 							c.Oracle = "a codec-style error whose own wire message is empty arrived with another message (the codec-provided fields must equal the original's): " + c.Fields
 						case kind == 8 && e != nil && (c.Type != "*jsonrpc.JSONRPCError" || e.Error() != msg):
